@@ -68,6 +68,8 @@ func c19Middleware(kind int) message.HandlerMiddleware {
 	panic("bad middleware kind")
 }
 
+type c19CtxKey struct{}
+
 // HarnessC19Transparent: each simple middleware passes outputs and error through unchanged and does
 // not leave the message context cancelled.
 func HarnessC19Transparent() {
@@ -80,6 +82,7 @@ func HarnessC19Transparent() {
 	calls := 0
 	sawDeadline := false
 	ackedAtStart := false
+	derives := vrt.Bool("handler.derives.a.context")
 	h := func(m *message.Message) ([]*message.Message, error) {
 		calls++
 		_, sawDeadline = m.Context().Deadline()
@@ -87,6 +90,10 @@ func HarnessC19Transparent() {
 		vrt.Assert(m == msg, "the handler receives the consumed message itself")
 		if kind != mwTimeout { // Timeout's own deadline may legitimately pass during the call
 			vrt.Assert(m.Context().Err() == nil, "the context is live during the call")
+		}
+		if derives {
+			// what the CQRS processors do: attach a value to the context the message carries at that moment
+			m.SetContext(context.WithValue(m.Context(), c19CtxKey{}, "v"))
 		}
 		return res.outs, res.err
 	}
@@ -203,6 +210,18 @@ func HarnessC19IgnoreErrors() {
 	}
 	res := c19ArbResult("h.")
 	h := func(m *message.Message) ([]*message.Message, error) { return res.outs, hErr }
+	if panics := vrt.Int("panics.under.Recoverer", 0, 2); panics > 0 {
+		// IgnoreErrors(Recoverer(h)): a handler that PANICS - even with a listed error or with its text - has not
+		// returned a listed error: the failure must stay a failure
+		var pv any = listed
+		if panics == 2 {
+			pv = "listed"
+		}
+		ph := func(m *message.Message) ([]*message.Message, error) { panic(pv) }
+		_, err := ie.Middleware(Recoverer(ph))(message.NewMessage("m", nil))
+		vrt.Assert(err != nil, "a recovered panic is never turned into success")
+		return
+	}
 	out, err := ie.Middleware(h)(message.NewMessage("m", nil))
 	vrt.Observe("err", err != nil)
 	vrt.Assert(sameMsgs(out, res.outs), "outputs unchanged")
